@@ -175,7 +175,26 @@ func encObs(p rtcp.Packet) *Sx {
 		return sy("none")
 	})
 	m := guard(func() *Sx { return bytesRes(p.Marshal()) })
-	return sl(sl(sy("marshal"), m), sl(sy("size"), size), sl(sy("dest"), dest), sl(sy("hdr"), hdr), sl(sy("len"), ln))
+	out := []*Sx{sl(sy("marshal"), m), sl(sy("size"), size), sl(sy("dest"), dest), sl(sy("hdr"), hdr), sl(sy("len"), ln)}
+	// a type that also offers MarshalTo (REMB): into a buffer of exactly MarshalSize octets it must do what Marshal does
+	if mt, ok := p.(interface{ MarshalTo([]byte) (int, error) }); ok {
+		out = append(out, sl(sy("marshalto"), guard(func() *Sx {
+			n := p.MarshalSize()
+			if n < 0 || n > 1<<24 {
+				return sy("none")
+			}
+			buf := make([]byte, n)
+			k, err := mt.MarshalTo(buf)
+			if err != nil {
+				return resErr()
+			}
+			if k < 0 || k > len(buf) {
+				return sl(sy("ok"), sy("bad-count"))
+			}
+			return resOk(sb(buf[:k]))
+		})))
+	}
+	return sl(out...)
 }
 
 func isOk(s *Sx) bool { return s.K == 'l' && len(s.L) == 2 && s.L[0].isSym("ok") }
